@@ -46,7 +46,7 @@ impl<K> OrphanStats<K> {
                 let intents = self.cas_inner.index.pending_intents.lock();
                 let state = self.cas_inner.index.read_state();
                 let still_referenced = state.contains_blob_hash(hash);
-                let has_intent = intents.values().any(|intent_hash| intent_hash == hash);
+                let has_intent = intents.protects(hash);
                 drop(state);
 
                 if still_referenced || has_intent {
@@ -117,7 +117,7 @@ impl<K> OrphanStats<K> {
                 let intents = self.cas_inner.index.pending_intents.lock();
                 let state = self.cas_inner.index.read_state();
                 let still_referenced = state.contains_blob_hash(hash);
-                let has_intent = intents.values().any(|intent_hash| intent_hash == hash);
+                let has_intent = intents.protects(hash);
                 drop(state);
 
                 if still_referenced || has_intent {
@@ -160,7 +160,7 @@ impl<K> OrphanStats<K> {
         let intents = self.cas_inner.index.pending_intents.lock();
         let state = self.cas_inner.index.read_state();
         let still_referenced = state.contains_blob_hash(hash);
-        let has_intent = intents.values().any(|intent_hash| intent_hash == hash);
+        let has_intent = intents.protects(hash);
         drop(state);
 
         if still_referenced || has_intent {
